@@ -46,9 +46,16 @@ AtomsEntry == {C1, CS, CT, NEmpty, NOp("Tuple", <<C1, CS>>), NConst(VFloat(<<163
 AtomsDeep == {Bin("Assign", WX, C1), Bin("AddAssign", WX, C1), RX, CallN(NFf, C2), CallN(NH, C1)}
 Atoms == CASE Family = "order" -> AtomsOrder [] Family = "imm" -> AtomsImm [] Family = "deep" -> AtomsDeep [] OTHER -> AtomsEntry
 Combs == CASE Family = "entry" -> {"Add", "Chain", "Tuple", "Eq"} [] Family = "deep" -> {"Add", "And", "Tuple", "Chain"}
-           [] OTHER -> {"Add", "And", "Or", "Eq", "Tuple", "Chain"}
+           [] OTHER -> {"Add", "Mul", "And", "Or", "Eq", "Tuple", "Chain"}
 Wraps == IF Family = "entry" THEN {} ELSE {NFf, NH}
 AssignWraps == CASE Family = "imm" -> AssignNodes [] Family \in {"order", "deep"} -> {"Assign", "AddAssign", "OrAssign"} [] OTHER -> {"Assign"}
+
+\* the builtin `if` is an ordinary function: all three arguments are evaluated, whatever the condition
+NIf == <<105, 102>>
+IfWraps(q) == IF Family \in {"order", "deep"}
+              THEN {CallN(NIf, NOp("Tuple", t)) : t \in {<<CT, q, CallN(NFf, C2)>>, <<CF, q, Bin("Assign", WX, C1)>>,
+                                                         <<CT, CallN(NFf, C2), q>>, <<CF, Bin("Assign", WX, C1), q>>, <<q, C1, CallN(NFf, C2)>>}}
+              ELSE {}
 
 \* flatten nested sequences of the same kind the way the grammar does (a, b, c is ONE tuple)
 Seq2(o, l, r) == NOp(o, (IF l.o = o THEN l.k ELSE <<l>>) \o <<r>>)
@@ -58,6 +65,7 @@ Extend(q) == {Combine(o, q, a) : o \in Combs, a \in Atoms}
              \cup {Combine(o, a, q) : o \in Combs \ {"Tuple", "Chain"}, a \in Atoms}
              \cup {CallN(f, q) : f \in Wraps}
              \cup {Bin(o, WX, q) : o \in AssignWraps}                    \* the program as the right-hand side of an assignment
+             \cup IfWraps(q)
              \cup (IF Family = "entry" THEN {} ELSE {NOp("Neg", <<q>>), NOp("Not", <<q>>)})
 Init == lvl = 0 /\ p \in Atoms
 Next == lvl < Depth /\ lvl' = lvl + 1 /\ p' \in Extend(p)
